@@ -735,7 +735,8 @@ def renumbering(check, prog):
 def _truth_table(value, classify):
     """Enumerate all assignments of the guard atoms of a nested conditional;
     yields (assignment dict, leaf).  `classify(atom)` names the atom or returns
-    None for an atom the rule does not know (-> analysis error)."""
+    None for an atom the rule does not know (a free atom '?k': both of its values
+    are enumerated and the oracle, which ignores it, must hold for both)."""
     atoms = guard_atoms(value)
     names = []
     for a in atoms:
@@ -744,7 +745,9 @@ def _truth_table(value, classify):
             n = classify(intern(('cmp', '==', a[2], a[3])))
             n = None if n is None else '!' + n
         if n is None:
-            raise AnalysisError('unrecognised guard %s' % show(a)[:120])
+            # a guard the documented behaviour does not mention: the row must come
+            # out right whichever way it goes
+            n = '?%d' % len(names)
         names.append(n)
     for vals in itertools.product((True, False), repeat=len(atoms)):
         asg = dict(zip(atoms, vals))
